@@ -281,6 +281,34 @@ def h_threshold(ctx, inp):
         ctx.reached()
 
 
+def h_threshold_exact(ctx, inp, setting):
+    """with a probability threshold the statistics are exactly the entries of the unthresholded
+    statistics that reach the threshold, renormalised (rational settings: only tau is symbolic,
+    so the comparisons have few feasible outcomes)"""
+    lw = ctx.lw
+    f = ctx.m.frac
+    nu, purity, ind = {"a": (f(4, 5), 1, f(361, 400)), "b": (1, 1, f(81, 100)), "c": (f(9, 10), f(17, 18), 1)}[setting]
+    tau = ctx.real("tau", 0, 1)
+    ctx.assume(tau > 0)
+    full = lw.emulator.Source(purity=purity, brightness=nu, indistinguishability=ind)._build_statistics(lw.State(list(inp)))
+    try:
+        thr = lw.emulator.Source(purity=purity, brightness=nu, indistinguishability=ind, probability_threshold=tau)._build_statistics(lw.State(list(inp)))
+    except ZeroDivisionError:
+        ctx.reached()
+        return
+    keep = {}
+    tot = 0
+    for st, p in full.items():
+        if bool(p >= tau):
+            keep[str(st)] = p
+            tot = tot + p
+    got = {str(st): p for st, p in thr.items()}
+    ctx.check(sorted(got) == sorted(keep), "threshold:exactly-the-inputs-that-reach-the-threshold-survive", {"got": len(got), "want": len(keep)})
+    for k, p in keep.items():
+        if k in got:
+            ctx.check_eq(got[k] * tot, p, "threshold:survivors-keep-their-relative-weights")
+
+
 REGIONS = [{}, {"pure": True}, {"indist": True}, {"dist": True}, {"nu1": True}, {"pure": True, "indist": True}, {"pure": True, "dist": True}, {"nu1": True, "pure": True, "indist": True}]
 
 
@@ -314,5 +342,6 @@ def harnesses(tier):
         ("hom", h_hom, [dict(region=r) for r in ({}, {"nu1": True}, {"backend": "slos"})]),
         ("mixing", h_mixing, [dict(which=w) for w in ("two-dist", "bunched-plus-dist", "mix3", "noise")]),
         ("end-to-end", h_end_to_end, e2e, dict(check_timeout_ms=30000, max_paths=2000, max_seconds=300 if tier == "quick" else 1500)),
+        ("threshold-exact", h_threshold_exact, [dict(inp=i, setting=st) for i in ((1,), (1, 1), (2, 0, 1)) for st in ("a", "b", "c")], dict(max_paths=4000, max_seconds=600)),
         ("threshold", h_threshold, thr, dict(max_paths=3000, max_seconds=300 if tier == "quick" else 1500)),
     ]
